@@ -325,7 +325,8 @@ Cap == [unary |-> "Unary", paged |-> "Paged", lro |-> "Lro", sstream |-> "Sstrea
         bidi |-> "Bidi", void |-> "Void"]
 Rpcs == [j \in 1..Len(req.kinds) |-> [name |-> "M" \o ToString(j - 1) \o Cap[req.kinds[j]],
                                        snake |-> "m" \o ToString(j - 1) \o "_" \o req.kinds[j]]]
-        \o (IF req.extra = "kw" THEN <<[name |-> "Import", snake |-> "import_"]>> ELSE <<>>)
+        \* ... and one whose LOWER-CASED name is a keyword although its snake-cased name is not (NonLocal -> non_local_)
+        \o (IF req.extra = "kw" THEN <<[name |-> "Import", snake |-> "import_"], [name |-> "NonLocal", snake |-> "non_local_"]>> ELSE <<>>)
         \o (IF req.extra = "xreq" THEN <<[name |-> "Xcheck", snake |-> "xcheck"]>> ELSE <<>>)
 \* with "internal", only the first RPC of the first service stays public
 IsInternal(si, ri) == req.extra = "internal" /\ ~(si = 1 /\ ri = 1)
@@ -342,7 +343,7 @@ ReqFieldsDecl == <<"name">> \o (IF req.extra = "reserved" THEN <<"class_">> ELSE
 ReqRequired == {"filter"}
 FixupParams == SelectSeq(ReqFieldsDecl, LAMBDA f : f \in ReqRequired) \o SelectSeq(ReqFieldsDecl, LAMBDA f : f \notin ReqRequired)
 \* keyed by the snake-cased RPC name (not the client method name): Import -> "import"
-FixupKey(ri) == IF Rpcs[ri].name = "Import" THEN "import" ELSE Rpcs[ri].snake
+FixupKey(ri) == IF Rpcs[ri].name = "Import" THEN "import" ELSE IF Rpcs[ri].name = "NonLocal" THEN "non_local" ELSE Rpcs[ri].snake
 \* the dependency-package request of Xcheck: name, payload (a message), note (required) -- every field is a keyword of the call
 DepReqDecl == <<"name", "payload", "note">>
 DepReqRequired == {"note"}
